@@ -15,7 +15,7 @@ import tempfile
 
 from vlib import core
 from vlib.core import Outcome, line
-from vlib.crash import Crash, InjectedIOError, Injector, WFile, is_under, mkdtemp, prefixes, real_open
+from vlib.crash import Crash, InjectedIOError, Injector, WFile, hard_points, is_under, mkdtemp, prefixes, real_open
 
 DL_BLOCK = 1 << 18
 CP_BLOCK = getattr(shutil, 'COPY_BUFSIZE', 64 * 1024)
@@ -203,12 +203,20 @@ class C19(core.Property):
       sched = []
       for _ in range(rng.randrange(1, 5)):
         call = 0 if kind == 'raw' else rng.choice([0, 1, 1])
-        sched.append([call, rng.randrange(0, 1001), rng.randrange(0, 1001), rng.choice([0, 0, 1])])
+        sched.append([call, rng.randrange(0, 1001), rng.randrange(0, 1001), rng.choice([0, 0, 1, 2, 3])])
       yield {'kind': kind, 'size': size, 'init': init, 'sched': sched}
 
   def shrink(self, case):
     if 'enumerate' in case:
       call = case['enumerate']
+      hit = getattr(self, '_last_fail', {}).get(core.case_digest(case))
+      if hit:
+        c, f, n = hit
+        cf = -(-c * 1001 // (n + 1))
+        while (cf * (n + 1)) // 1001 < c:
+          cf += 1
+        yield {'kind': case['kind'], 'size': case['size'], 'init': case['init'], 'sched': [[call, cf, 0, 2 if f == 0 else 3]]}
+        return
       for cf in (500, 250, 750, 0, 100, 200, 300, 400, 600, 700, 800, 900, 1000, 50, 950):
         for pf in (500, 0, 999):
           yield {'kind': case['kind'], 'size': case['size'], 'init': case['init'], 'sched': [[call, cf, pf, 0]]}
@@ -229,7 +237,7 @@ class C19(core.Property):
       if 0 < c < s:
         yield {**case, 'size': c}
     for i, st in enumerate(sched):
-      if st[3] != 0:
+      if st[3] == 1:
         yield {**case, 'sched': sched[:i] + [[st[0], st[1], st[2], 0]] + sched[i + 1:]}
       for j in (1, 2):
         for c in (500, 0):
@@ -439,13 +447,14 @@ class C19(core.Property):
     self.populate(d, kind, init, P, D)
     return d
 
-  def _clean_events(self, root, src_dir, kind, call, P):
+  def _clean_events(self, root, src_dir, kind, call, P, hard=False):
     """Events of an uninterrupted run of `call` from the state of `src_dir` (on a copy)."""
     d = os.path.join(root, 'probe')
     if os.path.exists(d):
       shutil.rmtree(d)
     shutil.copytree(src_dir, d)
-    inj = Injector()
+    inj = Injector(hard=hard)
+    self._probe_pending = inj.pending_at
     sizes = []
     res = self.run_call(d, self.names(kind)[0], call, inj, P, sizes)
     shutil.rmtree(d)
@@ -562,6 +571,36 @@ class C19(core.Property):
         corr.append(f'after crash {(c, p)}: impl listing {listing} vs model {ans[0]}')
       if ans[-1] != final_listing and ans[-1] != 'raises':
         corr.append(f'after crash {(c, p)} + completed calls: impl {final_listing} vs model {ans[-1]}')
+    if not probs:
+      # hard-kill crash points: process death with unflushed data lost; close() is a crash point.
+      # Judged by the independent oracle only (no model comparison).
+      hev, _, _ = self._clean_events(root, base, kind, call, P, hard=True)
+      pend = list(self._probe_pending)
+      hpts = hard_points(hev, pend)
+      limit = 40 if ctx.tier == 'quick' else 300
+      if len(hpts) > limit:
+        stepf = len(hpts) / float(limit)
+        hpts = [hpts[int(i * stepf)] for i in range(limit)]
+      for (c, f) in hpts:
+        d = self._fresh(root, 'run', kind, init, P, D)
+        before = self.finals_present(d, kind)
+        inj = Injector(crash_at=c, hard=True, keep_frac=f)
+        self.run_call(d, dlname, call, inj, P, [])
+        listing, _ = self.observe(d, kind, P, D)
+        st_probs = self.oracle_state(d, kind, P, D, before)
+        cp = []
+        self._complete_and_check(d, kind, P, D, cp, ctx)
+        ctx.count('hard_kill_points')
+        if (st_probs or cp) and first_bad is None:
+          first_bad = {'hard_kill_before_event': c, 'event': [str(x) for x in hev[c]], 'of_events': len(hev),
+                       'unflushed_bytes': pend[c], 'fraction_of_unflushed_bytes_on_disk': f,
+                       'listing_after_kill': listing}
+          self._last_fail = {core.case_digest(case): (c, f, len(hev))}
+        for key, txt in st_probs + cp:
+          probs.append((key, f'{CALLS[call]} killed before event {c} {hev[c]} with {pend[c]} unflushed bytes '
+                             f'({int(f * 100)}% of them reached the disk): {txt}'))
+        if len(probs) > 4:
+          break
     key = probs[0][0] if probs else None
     tags = ('enumerate', f'kind={kind}', f'call={CALLS[call]}', self._size_tag(kind, size))
     return Outcome(oracle_fail='; '.join(t for _, t in probs[:3]) or None, corr_fail='; '.join(corr[:3]) or None,
@@ -590,19 +629,25 @@ class C19(core.Property):
     dl_block, dec_block = DL_BLOCK, CP_BLOCK
     for step in case['sched']:
       call, cf, pf, mode = step
-      events, res, rsizes = self._clean_events(root, d, kind, call, P)
+      kill = mode in (2, 3)                # hard kill: unflushed data lost (fraction 0 / one half kept)
+      events, res, rsizes = self._clean_events(root, d, kind, call, P, hard=kill)
+      pend = list(self._probe_pending)
       if call == 0 and rsizes and isinstance(rsizes[0], int) and rsizes[0] > 0:
         dl_block = rsizes[0]
       if call == 1 and [e for e in events if e[0] == 'write']:
         dec_block = self.infer_block(events, CP_BLOCK, len(D))
       zs = self._sizes_args(P, D, dl_block, dec_block)
       c = (cf * (len(events) + 1)) // 1001
-      if c < len(events) and events[c][0] == 'write':
+      if c < len(events) and events[c][0] == 'write' and not kill:
         p = (pf * events[c][1][1]) // 1000
       else:
         p = 0
       before = self.finals_present(d, kind)
-      inj = Injector(crash_at=c, prefix=p, mode='ioerror' if mode else 'crash')
+      if kill:
+        inj = Injector(crash_at=c, hard=True, keep_frac=0.0 if mode == 2 else 0.5)
+        ctx.count('hard_kill_points')
+      else:
+        inj = Injector(crash_at=c, prefix=p, mode='ioerror' if mode == 1 else 'crash')
       r = self.run_call(d, dlname, call, inj, P, [])
       listing, other = self.observe(d, kind, P, D)
       if other:
@@ -610,7 +655,15 @@ class C19(core.Property):
       if any(e[0] in FS_KINDS for e in events[:c]) and inj.fired:
         interrupted_late = True
       for key, txt in self.oracle_state(d, kind, P, D, before):
-        probs.append((key, f'{CALLS[call]} interrupted at event {c} (+{p} bytes): {txt}'))
+        probs.append((key, (f'{CALLS[call]} killed before event {c} (unflushed data lost)' if kill else
+                            f'{CALLS[call]} interrupted at event {c} (+{p} bytes)') + f': {txt}'))
+      if kill:
+        # oracle only: the model is not consulted for hard-kill steps; it continues from what is on disk
+        trace.append({'call': CALLS[call], 'hard_kill_before_event': c, 'event': [str(x) for x in events[c]] if c < len(events) else None,
+                      'unflushed_bytes': pend[c] if c < len(pend) else 0, 'fraction_on_disk': 0.0 if mode == 2 else 0.5,
+                      'fired': inj.fired, 'result': list(r), 'impl_listing': listing})
+        fs_model = listing
+        continue
       plan = ctx.drv.ask([line('c19.plan', *zs, call, fs_model)])[0]
       if plan == 'raises':
         if r[0] != 'raise' and not (r[0] == 'crash'):
